@@ -154,10 +154,11 @@ Fixpoint bracket_exact (roots : list box) (before l : list event) : bool :=
     let outside := before ++ upto_pop e id r in
     (* overflow clips the content only: the box's own background / border / opacity group / transform and the
        outlines (step 10) of its sub-tree are painted outside the clip *)
-    let allowed := fun x => match e, x with
-                            | EClip, Bg i | EClip, Border i | EClip, Push _ i | EClip, Pop _ i => N.eqb i id
-                            | EClip, Outline _ => true
-                            | _, _ => false
+    let allowed := fun x => match x with
+                            | Push _ i | Pop _ i => N.eqb i id      (* the other group effects of the same box *)
+                            | Bg i | Border i => match e with EClip => N.eqb i id | _ => false end
+                            | Outline _ => match e with EClip => true | _ => false end
+                            | _ => false
                             end in
     forallb (fun x => negb (memN (event_id x) sub) || allowed x) outside && bracket_exact roots (before ++ [Push e id]) r
   | x :: r => bracket_exact roots (before ++ [x]) r
